@@ -160,6 +160,46 @@ from django_evolution.utils.migrations import MigrationList
 LATEST_SIGNATURE_VERSION = 2
 
 
+def _normalize_stored_value(value):
+    """Return a value in the form it compares as once it has been stored.
+
+    A stored signature can only represent lists, so any tuple (an index's
+    expressions, ``include=('name',)``, the value of a
+    ``Q(field__in=(1, 2))`` lookup) is loaded back as a list. The signature
+    of a model must still equal the stored signature of that same model,
+    so signatures are compared using this normalized form.
+
+    Args:
+        value (object):
+            The value to normalize.
+
+    Returns:
+        object:
+        The value with tuples converted to lists, recursively, including
+        inside dictionaries and :py:class:`~django.db.models.Q` objects.
+        The result is only meant for comparisons.
+    """
+    if isinstance(value, (list, tuple)):
+        return [
+            _normalize_stored_value(_value)
+            for _value in value
+        ]
+    elif isinstance(value, dict):
+        return dict(
+            (_key, _normalize_stored_value(_value))
+            for _key, _value in six.iteritems(value)
+        )
+    elif isinstance(value, models.Q):
+        return {
+            '_q': True,
+            'children': _normalize_stored_value(value.children),
+            'connector': value.connector,
+            'negated': value.negated,
+        }
+
+    return value
+
+
 class BaseSignature(object):
     """Base class for a signature."""
 
@@ -1925,10 +1965,7 @@ class ConstraintSignature(BaseSignature):
             dict:
             The attributes, with any tuple values converted to lists.
         """
-        return dict(
-            (key, (list(value) if isinstance(value, tuple) else value))
-            for key, value in six.iteritems(self.attrs or {})
-        )
+        return _normalize_stored_value(self.attrs or {})
 
     def _serialize_attr_value(self, value):
         """Return a serialized version of a constraint attribute value.
@@ -2136,9 +2173,11 @@ class IndexSignature(BaseSignature):
                 ((not self.name and not other.name) or
                  self.name == other.name) and
                 ((not self.expressions and not other.expressions) or
-                 self.expressions == other.expressions) and
+                 (_normalize_stored_value(self.expressions) ==
+                  _normalize_stored_value(other.expressions))) and
                 self.fields == other.fields and
-                dict.__eq__(self.attrs or {}, other.attrs or {}))
+                dict.__eq__(_normalize_stored_value(self.attrs or {}),
+                            _normalize_stored_value(other.attrs or {})))
 
     def __hash__(self):
         """Return a hash of the signature.
@@ -2151,8 +2190,9 @@ class IndexSignature(BaseSignature):
         """
         return hash(
             '<IndexSignature(name=%r, fields=%r, expressions=%r, attrs=%r)>'
-            % (self.name, self.fields, self.expressions,
-               sorted(six.iteritems(self.attrs or {}),
+            % (self.name, self.fields,
+               _normalize_stored_value(self.expressions),
+               sorted(six.iteritems(_normalize_stored_value(self.attrs or {})),
                       key=lambda pair: pair[0])))
 
     def __repr__(self):
